@@ -31,7 +31,7 @@ PROPS = {
     "C04": dict(quick=["book1", "fee", "feebig", "marker", "mig"],
                 thorough=["book1", "fee", "feebig", "marker", "auth", "frac", "mig"],
                 drive=[("reverse", 2, 40, 250)]),
-    "C05": dict(quick=["auth"], thorough=["auth", "cfg", "mig"], drive=[("mixed", 2, 40, 250)]),
+    "C05": dict(quick=["auth", "book2"], thorough=["auth", "book2", "cfg", "mig"], drive=[("mixed", 2, 40, 250)]),
     "C06": dict(quick=["book1", "fee", "frac", "marker", "mig"],
                 thorough=["book1", "fee", "feebig", "frac", "marker", "mig", "book2"],
                 drive=[("mixed", 2, 40, 250)]),
@@ -47,7 +47,7 @@ PROPS = {
                 drive=[("create", 1, 20, 150)]),
     "C14": dict(quick=["mig"], thorough=["mig", "migarb"], drive=[("migrate", 2, 40, 250)]),
     "C15": dict(quick=["mig", "migarb"], thorough=["mig", "migarb"], drive=[("migrate", 2, 40, 250)]),
-    "C16": dict(quick=["book1", "book2", "mig"], thorough=["book1", "book2", "mig", "frac"], drive=[("mixed", 2, 40, 250)]),
+    "C16": dict(quick=["book1", "book2", "mig", "inst"], thorough=["book1", "book2", "mig", "inst", "frac"], drive=[("mixed", 2, 40, 250)]),
     "C17": dict(quick=["book1", "fee", "marker", "mig", "frac"],
                 thorough=["book1", "fee", "feearith", "marker", "auth", "mig", "frac"],
                 drive=[("mixed", 2, 40, 250)]),
@@ -56,13 +56,17 @@ PROPS = {
 ALL_PROPS = ["C%02d" % i for i in range(1, 18)]
 
 LEVEL_TEXT = (
-    "Model checking with conformance binding: TLC explores each scenario of the explicit TLA+ specification "
-    "(spec/Ats.tla) exhaustively and checks every clause of this property (spec/AtsProps.tla) on every state and "
-    "transition; every transition TLC generates is then replayed on the real contract entry points and compared "
-    "with the specification's outcome, and whatever the code does differently is judged by TLC (spec/AtsTrace.tla) "
-    "against the property's clauses. The property is a statement over all histories of a sequential state machine, "
-    "which is what exhaustive exploration of a closed finite request alphabet decides; the replay transfers the "
-    "result to the implementation for every explored transition."
+    "Model checking with conformance binding in both directions. (M) TLC explores each registered scenario of the explicit "
+    "TLA+ specification (spec/Ats.tla) exhaustively and checks every clause of this property (spec/AtsProps.tla) on every "
+    "reachable state and every transition. (A) Every transition TLC generates is replayed on the real contract entry points "
+    "(state injected, request executed, outcome / messages / attributes / query result / complete projected storage compared "
+    "with the specification's outcome); where the code ends up in a state the specification does not reach, divergence probes "
+    "wind that state down. (B) Seeded random histories are run on the real contract and every recorded call and probe is "
+    "judged by TLC (spec/AtsTrace.tla) against the same clauses and against Outcomes(). Whatever the code does differently is "
+    "attributed to clauses by TLC; VIOLATION is printed iff a clause of this property is violated by something the real code did. "
+    "The property quantifies over all histories of a sequential state machine; exhaustive exploration of closed finite request "
+    "alphabets decides that for the model, and the replay of every transition transfers it to the implementation for "
+    "everything explored."
 )
 LEVEL_NOTE = (
     "Exhaustive only within each scenario's finite request alphabet and book bound (spec/MC_*.tla); amounts below "
